@@ -196,6 +196,7 @@ static long n_ooo[2], n_dup[2], n_garbage[2];
 static usec_t next_offer[2] = { INF, INF };
 static int offer_int_ms[2] = { 200, 200 };
 static int offer_size[2] = { 600, 600 };
+static int offer_early_us = 0, offer_early_left = 48;	/* packets offered on the server's tun while the handshake is still going on */
 static int offer_big[2] = { 0, 0 }, offer_big_every[2] = { 0, 0 };	/* every Nth packet: a large compressible one */
 static double offer_start[2] = { 0.5, 0.5 }, offer_stop[2] = { 1e9, 1e9 };
 static uint32_t prng = 777;
@@ -588,6 +589,7 @@ int main(int argc, char **argv)
 		else if (ARG("--srv-int")) offer_int_ms[SRV] = atoi(argv[++i]);
 		else if (ARG("--cli-size")) offer_size[CLI] = atoi(argv[++i]);
 		else if (ARG("--srv-size")) offer_size[SRV] = atoi(argv[++i]);
+		else if (ARG("--srv-early-us")) offer_early_us = atoi(argv[++i]);
 		else if (ARG("--cli-big")) { offer_big[CLI] = atoi(argv[++i]); offer_big_every[CLI] = 5; }
 		else if (ARG("--srv-big")) { offer_big[SRV] = atoi(argv[++i]); offer_big_every[SRV] = 5; }
 		else if (ARG("--cli-start")) offer_start[CLI] = atof(argv[++i]);
@@ -622,6 +624,19 @@ int main(int argc, char **argv)
 			return 3;
 		}
 		deliver_due();
+		if (T0 < 0 && offer_early_us > 0 && offer_int_ms[SRV]) {
+			/* handshake phase: packets for the client keep arriving at the server's tun device (they are outside the
+			   checked window: a packet for a client that is not logged in yet is dropped by design) */
+			if (next_offer[SRV] >= INF)
+				next_offer[SRV] = 0;
+			while (next_offer[SRV] <= now) {
+				if (offer_early_left > 0 && npk[SRV] < MAXP) {
+					offer_packet(SRV);
+					offer_early_left--;
+				}
+				next_offer[SRV] += offer_early_us;
+			}
+		} else
 		for (i = 0; i < 2; i++)
 			while (next_offer[i] <= now) {
 				if (rel(next_offer[i]) <= offer_stop[i] && npk[i] < MAXP)
